@@ -145,6 +145,24 @@ theorem Mixer.mapSounds_idle (g : List S → List S) (m : Mixer ℝ S E P) (h : 
     Mixer.Idle (Mixer.mapSounds g m) :=
   ⟨Trk.mapSoundsList_idle g _ h.subs, h.pending, h.pendingSends, h.sends, h.main⟩
 
+theorem Trk.mapSounds_noSpatial (g : List S → List S) (t : Trk ℝ S E P) :
+    Trk.NoSpatial t → Trk.NoSpatial (Trk.mapSounds g t) := by
+  refine Trk.rec (motive_1 := fun t => Trk.NoSpatial t → Trk.NoSpatial (Trk.mapSounds g t))
+    (motive_2 := fun ts => Trk.NoSpatialList ts → Trk.NoSpatialList (Trk.mapSoundsList g ts)) ?_ ?_ ?_ t
+  · intro d c p ihc _ h; rw [Trk.mapSounds]; exact ⟨h.1, ihc h.2⟩
+  · intro _; simp [Trk.mapSoundsList, Trk.NoSpatialList]
+  · intro t ts iht ihts h; rw [Trk.mapSoundsList]; exact ⟨iht h.1, ihts h.2⟩
+
+theorem Trk.mapSoundsList_noSpatial (g : List S → List S) (ts : List (Trk ℝ S E P)) (h : Trk.NoSpatialList ts) :
+    Trk.NoSpatialList (Trk.mapSoundsList g ts) := by
+  induction ts with
+  | nil => simp [Trk.mapSoundsList, Trk.NoSpatialList]
+  | cons t ts ih => rw [Trk.mapSoundsList]; exact ⟨Trk.mapSounds_noSpatial g t h.1, ih h.2⟩
+
+theorem Mixer.mapSounds_noSpatial (g : List S → List S) (m : Mixer ℝ S E P) (h : Mixer.NoSpatial m) :
+    Mixer.NoSpatial (Mixer.mapSounds g m) :=
+  Trk.mapSoundsList_noSpatial g _ h
+
 theorem Trk.mapSounds_compsOk {IS IS2 : S → Prop} {IE : E → Prop} (g : List S → List S)
     (hg : ∀ ss, (∀ s ∈ ss, IS s) → ∀ s ∈ g ss, IS2 s) (t : Trk ℝ S E P) :
     Trk.CompsOk IS IE t → Trk.CompsOk IS2 IE (Trk.mapSounds g t) := by
@@ -231,15 +249,18 @@ theorem Renderer.mapSounds_mapFx (g : List S → List S) (fe : E → E) (r : Ren
 def startSounds (C : Comps ℝ S E P) (ss : List S) : List S := (ss.filter (fun s => !C.sndFinished s)).map C.sndStart
 
 theorem Trk.onStart_idle_sounds (C : Comps ℝ S E P) {IS : S → Prop} {IE : E → Prop} (hfx : ∀ e, IE e → C.fxStart e = e)
-    (t : Trk ℝ S E P) : Trk.Idle t → Trk.CompsOk IS IE t → Trk.onStart C t = Trk.mapSounds (startSounds C) t := by
-  refine Trk.rec (motive_1 := fun t => Trk.Idle t → Trk.CompsOk IS IE t → Trk.onStart C t = Trk.mapSounds (startSounds C) t)
-    (motive_2 := fun ts => Trk.IdleList ts → Trk.CompsOkList IS IE ts →
+    (t : Trk ℝ S E P) : Trk.Idle t → Trk.NoSpatial t → Trk.CompsOk IS IE t →
+      Trk.onStart C t = Trk.mapSounds (startSounds C) t := by
+  refine Trk.rec (motive_1 := fun t => Trk.Idle t → Trk.NoSpatial t → Trk.CompsOk IS IE t →
+      Trk.onStart C t = Trk.mapSounds (startSounds C) t)
+    (motive_2 := fun ts => Trk.IdleList ts → Trk.NoSpatialList ts → Trk.CompsOkList IS IE ts →
       Trk.onStartKept C ts = Trk.mapSoundsList (startSounds C) ts) ?_ ?_ ?_ t
-  · intro d children pending ihc _ h hc
+  · intro d children pending ihc _ h hns hc
     obtain ⟨hd, hp, hcl⟩ := h
     obtain ⟨hdc, hcc⟩ := hc
     subst hp
-    rw [Trk.onStart, Trk.readCommands_idle d hd, ihc hcl hcc, Trk.mapSounds]
+    have hsp : d.spatial.map C.spStart = d.spatial := by rw [hns.1]; rfl
+    rw [Trk.onStart, Trk.readCommands_idle d hd, ihc hcl hns.2 hcc, Trk.mapSounds, hsp]
     have hs : (removeAndAdd C.sndFinished d.sounds d.pendingSounds).map C.sndStart = startSounds C d.sounds := by
       rw [hd.2.2.2.2.1]; simp [removeAndAdd, startSounds]
     have he : d.effects.map C.fxStart = d.effects := map_id_of _ _ (fun e he => hfx e (hdc.2 e he))
@@ -247,29 +268,30 @@ theorem Trk.onStart_idle_sounds (C : Comps ℝ S E P) {IS : S → Prop} {IE : E 
     have hps := hd.2.2.2.2.1
     simp only [Trk.onStartList, List.reverse_nil, List.nil_append]
     cases d; simp_all
-  · intro _ _; simp [Trk.onStartKept, Trk.mapSoundsList]
-  · intro t ts iht ihts h hc
+  · intro _ _ _; simp [Trk.onStartKept, Trk.mapSoundsList]
+  · intro t ts iht ihts h hns hc
     rw [Trk.onStartKept, Trk.idle_not_removable t h.1, Trk.mapSoundsList]
-    simp [iht h.1 hc.1, ihts h.2 hc.2]
+    simp [iht h.1 hns.1 hc.1, ihts h.2 hns.2 hc.2]
 
 theorem Trk.onStartKept_idle_sounds (C : Comps ℝ S E P) {IS : S → Prop} {IE : E → Prop}
-    (hfx : ∀ e, IE e → C.fxStart e = e) (ts : List (Trk ℝ S E P)) (h : Trk.IdleList ts) (hc : Trk.CompsOkList IS IE ts) :
+    (hfx : ∀ e, IE e → C.fxStart e = e) (ts : List (Trk ℝ S E P)) (h : Trk.IdleList ts) (hns : Trk.NoSpatialList ts)
+    (hc : Trk.CompsOkList IS IE ts) :
     Trk.onStartKept C ts = Trk.mapSoundsList (startSounds C) ts := by
   induction ts with
   | nil => simp [Trk.onStartKept, Trk.mapSoundsList]
   | cons t ts ih =>
     rw [Trk.onStartKept, Trk.idle_not_removable t h.1, Trk.mapSoundsList]
-    simp [Trk.onStart_idle_sounds C hfx t h.1 hc.1, ih h.2 hc.2]
+    simp [Trk.onStart_idle_sounds C hfx t h.1 hns.1 hc.1, ih h.2 hns.2 hc.2]
 
-/-- **with nothing in flight `on_start_processing` drops the finished sounds, starts the others, and does
-    nothing else** -/
+/-- **with nothing in flight (and no spatial track: the spatial command readers `Comps.spStart` are not run)
+    `on_start_processing` drops the finished sounds, starts the others, and does nothing else** -/
 theorem Mixer.onStart_idle_sounds (C : Comps ℝ S E P) {IS : S → Prop} {IE : E → Prop} (hfx : ∀ e, IE e → C.fxStart e = e)
-    (m : Mixer ℝ S E P) (h : Mixer.Idle m) (hc : Mixer.CompsOk IS IE m) :
+    (m : Mixer ℝ S E P) (h : Mixer.Idle m) (hns : Mixer.NoSpatial m) (hc : Mixer.CompsOk IS IE m) :
     m.onStart C = Mixer.mapSounds (startSounds C) m := by
   unfold Mixer.onStart Mixer.mapSounds
   have h1 : (Trk.onStartList C m.pendingSubTracks).reverse ++ Trk.onStartKept C m.subTracks
       = Trk.mapSoundsList (startSounds C) m.subTracks := by
-    rw [h.pending, Trk.onStartKept_idle_sounds C hfx _ h.subs hc.subs]; simp [Trk.onStartList]
+    rw [h.pending, Trk.onStartKept_idle_sounds C hfx _ h.subs hns hc.subs]; simp [Trk.onStartList]
   have h2 : (removeAndAdd (fun s : SendTrk ℝ E => s.marked) m.sendTracks m.pendingSendTracks).map (SendTrk.onStart C)
       = m.sendTracks := by
     rw [h.pendingSends]
@@ -665,13 +687,13 @@ theorem startSounds_inv (hS : Comps.StartPrune D dead nrm IS IE) (ss : List S) (
 /-- **Whole device callbacks under `D` against plain `process` calls under `T`.**  `rD` runs whole device
     callbacks (`on_start_processing`, which drops the finished sounds, then `process`) with the components `D`;
     `rT` runs only the `process` calls with the normalised components `T` and never drops a sound.  If the two
-    scenes have the same canonical form, nothing is in flight in `rD`, and the environment is idle, they render
-    the same device samples and end with the same canonical form. -/
+    scenes have the same canonical form, nothing is in flight in `rD` (which has no spatial track), and the
+    environment is idle, they render the same device samples and end with the same canonical form. -/
 theorem Renderer.runDeviceCallbacks_prune {IX : X → Prop} (hD : D.LenPres) (hT : T.LenPres)
     (hVs : ∀ e, IX e → V.start e = e) (hVi : ∀ e x, IX e → IX (V.step e x))
     (hS : Comps.StartPrune D dead nrm IS IE) (ch : Nat) (cbs : List Nat) :
     ∀ (rD rT : Renderer ℝ S E P X), Comps.PruneOn D T dead nrm IS IE rD.ibs rD.dt → Comps.PruneOn T T dead nrm IS IE rD.ibs rD.dt →
-      rD.Clean → rT.Clean → Mixer.Idle rD.mixer → IX rD.env →
+      rD.Clean → rT.Clean → Mixer.Idle rD.mixer → Mixer.NoSpatial rD.mixer → IX rD.env →
       Mixer.CompsOk IS IE rD.mixer → Mixer.CompsOk IS IE rT.mixer →
       Renderer.mapSounds (canonS dead nrm) rD = Renderer.mapSounds (canonS dead nrm) rT →
       (Renderer.runDeviceCallbacks D V ch rD cbs).2 = (Renderer.runCallbacks T V ch rT cbs).2
@@ -683,17 +705,18 @@ theorem Renderer.runDeviceCallbacks_prune {IX : X → Prop} (hD : D.LenPres) (hT
         ∧ (Renderer.runDeviceCallbacks D V ch rD cbs).1.ibs = rD.ibs
         ∧ (Renderer.runDeviceCallbacks D V ch rD cbs).1.dt = rD.dt := by
   induction cbs with
-  | nil => intro rD rT _ _ hcD _ hi hx hc1 _ he; exact ⟨rfl, he, hcD, hi, hc1, hx, rfl, rfl⟩
+  | nil => intro rD rT _ _ hcD _ hi _ hx hc1 _ he; exact ⟨rfl, he, hcD, hi, hc1, hx, rfl, rfl⟩
   | cons f fs ih =>
-    intro rD rT h1 h2 hcD hcT hi hx hc1 hc2 he
+    intro rD rT h1 h2 hcD hcT hi hns hx hc1 hc2 he
     obtain ⟨e1, e2, e3, e4, e5⟩ := (Renderer.mapSounds_eq_iff _ rD rT).mp he
     -- `on_start_processing` is invisible after `canonS`
     have hos : rD.onStart D V = { rD with mixer := Mixer.mapSounds (startSounds D) rD.mixer } := by
       unfold Renderer.onStart
-      rw [Mixer.onStart_idle_sounds D hS.fxStart rD.mixer hi hc1, hVs _ hx]
+      rw [Mixer.onStart_idle_sounds D hS.fxStart rD.mixer hi hns hc1, hVs _ hx]
     set rD' : Renderer ℝ S E P X := { rD with mixer := Mixer.mapSounds (startSounds D) rD.mixer } with hrD'
     have hcD' : rD'.Clean := ⟨hcD.1, Mixer.mapSounds_clean _ rD.ibs rD.mixer hcD.2⟩
     have hi' : Mixer.Idle rD'.mixer := Mixer.mapSounds_idle _ rD.mixer hi
+    have hns' : Mixer.NoSpatial rD'.mixer := Mixer.mapSounds_noSpatial _ rD.mixer hns
     have hc1' : Mixer.CompsOk IS IE rD'.mixer :=
       Mixer.mapSounds_compsOk _ (fun ss hss => startSounds_inv D hS ss hss) rD.mixer hc1
     have he' : Renderer.mapSounds (canonS dead nrm) rD' = Renderer.mapSounds (canonS dead nrm) rT := by
@@ -716,6 +739,7 @@ theorem Renderer.runDeviceCallbacks_prune {IX : X → Prop} (hD : D.LenPres) (hT
     have hloopT : Renderer.processLoop T V ch f rT f = Renderer.specChunks T V ch rT (chunkSizes f rD'.ibs f) := by
       rw [Renderer.processLoop_eq, k1, hibs]
     have hiD := Renderer.specChunks_idle D V hD ch (chunkSizes f rD'.ibs f) rD' hi'
+    have hnsD := Renderer.specChunks_noSpatial D V ch (chunkSizes f rD'.ibs f) rD' hns'
     -- the environment stays idle, `dt` and `ibs` stay
     have henv : ∀ (C : Comps ℝ S E P) (ns : List Nat) (r : Renderer ℝ S E P X), IX r.env →
         IX (Renderer.specChunks C V ch r ns).1.env ∧ (Renderer.specChunks C V ch r ns).1.dt = r.dt := by
@@ -734,7 +758,7 @@ theorem Renderer.runDeviceCallbacks_prune {IX : X → Prop} (hD : D.LenPres) (hT
     rw [hloopD, hloopT]
     obtain ⟨i1, i2, i3, i4, i5, i6, i7, i8⟩ := ih (Renderer.specChunks D V ch rD' (chunkSizes f rD'.ibs f)).1
       (Renderer.specChunks T V ch rT (chunkSizes f rD'.ibs f)).1
-      (by rw [hibs2, hdt2]; exact h1) (by rw [hibs2, hdt2]; exact h2) g2 hk2 hiD hx2 p3 p4 p2
+      (by rw [hibs2, hdt2]; exact h1) (by rw [hibs2, hdt2]; exact h2) g2 hk2 hiD hnsD hx2 p3 p4 p2
     exact ⟨by rw [p1, i1], i2, i3, i4, i5, i6, by rw [i7, hibs2], by rw [i8, hdt2]⟩
 
 end
